@@ -2,6 +2,7 @@ package symex
 
 import (
 	"go/token"
+	"sync"
 	"strings"
 
 	"verif/engine/smt"
@@ -21,12 +22,16 @@ type mergeResult struct {
 type specFail struct{ why string }
 
 var ipdomCache = map[*ssa.Function]map[*ssa.BasicBlock]*ssa.BasicBlock{}
+var ipdomMu sync.Mutex
 
 // ipdoms computes immediate post-dominators (nil = virtual exit).
 func ipdoms(fn *ssa.Function) map[*ssa.BasicBlock]*ssa.BasicBlock {
+	ipdomMu.Lock()
 	if m, ok := ipdomCache[fn]; ok {
+		ipdomMu.Unlock()
 		return m
 	}
+	ipdomMu.Unlock()
 	n := len(fn.Blocks)
 	// pdom sets as bitsets over blocks + exit (index n)
 	type set []bool
@@ -101,7 +106,9 @@ func ipdoms(fn *ssa.Function) map[*ssa.BasicBlock]*ssa.BasicBlock {
 			res[fn.Blocks[i]] = nil
 		}
 	}
+	ipdomMu.Lock()
 	ipdomCache[fn] = res
+	ipdomMu.Unlock()
 	return res
 }
 
